@@ -398,7 +398,7 @@ spiftool_split(const spif_charptr_t delim, const spif_charptr_t str)
                         quote = 0;
                     } else {
                         /* It's a single quote inside double quotes, or vice versa.  Leave it alone. */
-                        *pdest++ = *pstr++;
+                        *pdest++ = *pstr;
                     }
                 } else {
                     quote = *pstr;
